@@ -333,7 +333,7 @@ class Fn:
             st.extend(self.succ(n))
         return seen
 
-    def path(self, src, dst, avoid=()):
+    def cfg_path(self, src, dst, avoid=()):
         """Shortest block path src->dst avoiding blocks in `avoid` (None if there is none)."""
         avoid = set(avoid)
         if src in avoid:
@@ -388,6 +388,8 @@ TRANSPARENT_SUFFIXES = (
     "::as_deref", "::as_deref_mut", "::into", "::from", "::to_owned", "::as_str", "::as_slice", "::as_path",
     "::into_iter", "::iter", "::iter_mut", "::as_bytes", "::to_string", "::to_path_buf", "::unwrap_or_default",
     "::as_mut_slice", "::copied", "::cloned", "::by_ref", "::into_inner", "::get_mut", "::as_ptr", "::as_mut_ptr",
+    "Try>::branch", "::unwrap", "::expect", "::map_err", "::with_context", "::context", "::unwrap_or", "::unwrap_or_else",
+    "::ok_or_else", "::ok_or", "::ok", "::to_vec", "::new_unchecked", "::get_unchecked_mut", "::as_os_str",
 )
 
 
@@ -873,3 +875,192 @@ def lock_states(fn, acq_site, guard_local, extra_release_blocks=()):
         return st
 
     return at
+
+
+# ---- outcome arms of a fallible call ----------------------------------------------------------------
+
+def outcome_arms(fn, call_site):
+    """For a call site whose destination is a Result (or Option), find how the body branches on it.
+    Returns {'ok': [blocks], 'err': [blocks], 'switch': [blocks]}: `ok` blocks are entered only when
+    the call succeeded, `err` blocks only when it failed.  Recognised: `?` (Try::branch + switch on
+    the ControlFlow discriminant), `if let Err/Ok`, `match`, on the destination local or a plain
+    move of it."""
+    t = fn.blocks[call_site.b]["term"]
+    if t["k"] != "call":
+        return {"ok": [], "err": [], "switch": []}
+    carriers = {t["dst"]["l"]}
+    # follow Try::branch(move dst) and plain moves
+    changed = True
+    while changed:
+        changed = False
+        for l, dfs in fn.defs().items():
+            if l in carriers:
+                continue
+            for df in dfs:
+                if df["k"] == "call" and callee_of(df["t"]).endswith("core::ops::try_trait::Try>::branch"):
+                    a = df["t"]["args"][0]
+                    if op_local(a) in carriers and not op_place(a)["p"]:
+                        carriers.add(l)
+                        changed = True
+                elif df["k"] == "assign" and not df["partial"] and df["rv"]["k"] == "use":
+                    p = op_place(df["rv"]["a"])
+                    if p and not p["p"] and p["l"] in carriers:
+                        carriers.add(l)
+                        changed = True
+    discr_locals = set()
+    for b, i, s in fn.stmts():
+        if s["k"] == "assign" and s["rv"]["k"] == "discr":
+            pl = s["rv"]["place"]
+            if pl["l"] in carriers and not pl["p"]:
+                discr_locals.add(s["dst"]["l"])
+    out = {"ok": [], "err": [], "switch": []}
+    preds = fn.preds()
+    for b in fn.reachable():
+        tt = fn.blocks[b]["term"]
+        if tt["k"] != "switch":
+            continue
+        l = op_local(tt["on"])
+        if l not in discr_locals:
+            continue
+        out["switch"].append(b)
+        vals = dict(zip(tt["values"], tt["targets"]))
+        okb = vals.get(0)
+        errb = vals.get(1)
+        if okb is None and 1 in vals:
+            okb = tt["otherwise"]
+        if errb is None and 0 in vals:
+            errb = tt["otherwise"]
+        for blk, name in ((okb, "ok"), (errb, "err")):
+            if blk is not None and set(preds.get(blk, [])) == {b}:
+                out[name].append(blk)
+    return out
+
+
+def in_arm(fn, site, arm_blocks):
+    return any(fn.dominates_block(a, site.b) for a in arm_blocks)
+
+
+# ---- ordered must-pass-through (A5) -------------------------------------------------------------------
+
+class Effect:
+    def __init__(self, name, pred, optional=False, no_early=True, sites=None):
+        self.name = name
+        self.pred = pred
+        self.optional = optional
+        self.no_early = no_early
+        self.sites = sites  # explicit site provider: fn -> [Site]
+
+
+def effect_sites(P, fn, eff):
+    if eff.sites is not None:
+        return eff.sites(fn)
+    return [s for s in P.sites_calling(fn, eff.pred, transitive=True, include_closure_construction=False)]
+
+
+def site_callee_fn(P, site):
+    """The local function invoked at a call site (resolved callee or closure), if it is in the fact base."""
+    t = site.fn.blocks[site.b]["term"]
+    if site.i != TERM or t["k"] != "call":
+        return None
+    return P.fn(callee_of(t))
+
+
+def must_order(P, fn, effects, targets, depth=0, trace=None):
+    """Every path from entry to each target site passes, in order, through sites performing the
+    effects.  Returns (ok, chain|counter-example).  One site may provide several consecutive effects
+    if its callee's own body orders them on all paths to its Ok-returns (checked recursively)."""
+    trace = trace if trace is not None else []
+    if depth > 6:
+        return False, {"reason": "recursion bound (6 call levels) exceeded", "fn": fn.path}
+    req = [e for e in effects]
+    per_eff_sites = [effect_sites(P, fn, e) for e in req]
+    results = []
+    all_ok = True
+    for t in targets:
+        ok, chain = _chain(P, fn, req, per_eff_sites, len(req) - 1, t, depth)
+        if not ok:
+            all_ok = False
+            results.append({"target": repr(t), "failed": chain})
+        else:
+            results.append({"target": repr(t), "chain": chain})
+            # no-early check relative to this chain
+            chain_sites = {c["effect"]: c["_site"] for c in chain}
+            for j, e in enumerate(req):
+                if j == 0 or not e.no_early or e.optional:
+                    continue
+                # previous non-optional effect in chain
+                prev = None
+                for jj in range(j - 1, -1, -1):
+                    if req[jj].name in chain_sites:
+                        prev = chain_sites[req[jj].name]
+                        break
+                if prev is None:
+                    continue
+                for s in per_eff_sites[j]:
+                    if s.key() == chain_sites.get(e.name, s).key() or s.key() == prev.key():
+                        continue
+                    if not fn.dominates(prev, s):
+                        all_ok = False
+                        results.append({"early": "%s performed at %s is not preceded by %s at %s on every path"
+                                                 % (e.name, s.loc(), req[jj].name, prev.loc())})
+    for r in results:
+        for c in r.get("chain", []):
+            c.pop("_site", None)
+    return all_ok, results
+
+
+def _chain(P, fn, req, per_sites, idx, target, depth):
+    """Find sites for effects req[0..idx] dominating `target` in order (greedy, latest first)."""
+    # skip optional effects in the chain (checked separately by the caller)
+    while idx >= 0 and req[idx].optional:
+        idx -= 1
+    if idx < 0:
+        return True, []
+    e = req[idx]
+    cands = [s for s in per_sites[idx] if fn.dominates(s, target)]
+    # latest dominating first
+    cands.sort(key=lambda s: sum(1 for o in cands if fn.dominates(o, s)), reverse=True)
+    if not cands:
+        p = fn.cfg_path(0, target.b, avoid=[s.b for s in per_sites[idx]])
+        return False, {"missing": e.name, "fn": fn.path, "target": target.loc(),
+                       "path_avoiding_effect": ["bb%d@%s" % (b, fn.blocks[b]["term"].get("line")) for b in (p or [])][:40],
+                       "sites_of_effect": [s.loc() for s in per_sites[idx]]}
+    last_fail = None
+    for s in cands:
+        # how many preceding (contiguous, non-optional) effects does the same site also perform?
+        group = [idx]
+        j = idx - 1
+        while j >= 0:
+            if req[j].optional:
+                j -= 1
+                continue
+            if any(x.key() == s.key() for x in per_sites[j]):
+                group.append(j)
+                j -= 1
+            else:
+                break
+        # try the smallest grouping first (just this effect), then larger ones
+        for take in range(1, len(group) + 1):
+            g = sorted(group[:take])
+            rest_idx = g[0] - 1
+            ok_inner = True
+            inner = None
+            if take > 1:
+                callee = site_callee_fn(P, s)
+                if callee is None:
+                    ok_inner = False
+                    inner = {"reason": "cannot look inside %s" % s.loc()}
+                else:
+                    tg = ok_sites(callee) or [x for x, k in return_sites(callee) if k in ("tail", "other")]
+                    ok_inner, inner = must_order(P, callee, [req[k] for k in g], tg, depth + 1)
+            if not ok_inner:
+                last_fail = {"effects": [req[k].name for k in g], "site": s.loc(), "inner": inner}
+                continue
+            ok_rest, rest = _chain(P, fn, req, per_sites, rest_idx, s, depth)
+            if ok_rest:
+                link = [{"effect": req[k].name, "site": s.loc(), "fn": fn.short, "_site": s} for k in g]
+                if inner is not None:
+                    link[0]["inner"] = inner
+                return True, rest + link
+            last_fail = rest
+    return False, last_fail
